@@ -66,4 +66,27 @@ def restartBLC (now : Int) (gen : Gen) : List Act :=
   [.own (.init []) now gen .none, .own .verify now gen .none, .own .onTokens now gen .none,
    .own (.changeState .ACTIVE) now gen .none]
 
+/-! ### `waitBeforeJoining` (token generators with a can-join check)
+
+Before the auto-join CAS, `autoJoin` calls `waitBeforeJoining`: without a can-join check it returns at once and
+never reads the store; with one it retries, 1 s apart, `KVStore.Get` + `CanJoin` until an attempt succeeds or the
+can-join timeout is over (`budget` attempts) — and then goes on REGARDLESS (the error is only logged; only a
+cancelled parent context aborts the join). -/
+
+/-- outcome of one attempt: the read fails, the store has no ring, `CanJoin` refuses, or all is fine -/
+inductive Read | fail | noRing | refused | ok
+  deriving DecidableEq, Repr, Inhabited
+
+/-- number of attempts `waitBeforeJoining` makes on the stream `reads` starting at attempt `k` -/
+def waitAttempts : Nat → (Nat → Read) → Nat → Nat
+  | 0, _, _ => 0
+  | budget + 1, reads, k => if reads k = .ok then 1 else 1 + waitAttempts budget reads (k + 1)
+
+/-- the join timer of a full Lifecycler whose generator may have a can-join check: the handler's result and the
+number of store reads it made first -/
+def joinTimerWithReads (c : Cfg) (l : Local) (file : File) (store : Option Desc) (now : Int) (gen : Gen)
+    (canJoin : Bool) (budget : Nat) (reads : Nat → Read) : Res × Nat :=
+  (step c l file store .joinTimer now gen .none,
+   if canJoin ∧ l.started = true ∧ l.state = .PENDING then waitAttempts budget reads 0 else 0)
+
 end C09
